@@ -106,6 +106,11 @@ impl Arena {
         // If trying to use the doubled capacity will surpass our memory limit, just allocate as much as we can
         } else if self.memory_usage + next_capacity > self.max_memory_usage {
             let remaining_memory = self.max_memory_usage.saturating_sub(self.memory_usage);
+            // The string has to fit into whatever memory is left, otherwise the bucket we're
+            // about to allocate would be too small to hold it
+            if remaining_memory < len {
+                return Err(LassoError::new(LassoErrorKind::MemoryLimitReached));
+            }
             // Check that we haven't exhausted our memory limit
             self.allocate_memory(remaining_memory)?;
 
